@@ -160,7 +160,7 @@ def q_cls(cls):
     return 'LogCls' if cls == 'log' else 'ParamCls'
 
 
-HEADER = ('From CF Require Import Common.Bytes C03.Model.\nFrom Coq Require Import String.\n'
+HEADER = ('From CF Require Import Common.Bytes C03.Model.\nFrom CF Require Import C03.Stale.\nFrom Coq Require Import String.\n'
           'Open Scope Z_scope.\n'
           'Definition fdg (l : list Z) : Z * Z :=\n'
           '  (fold_left (fun h v => Z.land (h * 1000003 + v + 1) 18446744073709551615) l 7,\n'
@@ -343,12 +343,13 @@ def run_fetch(case, choose=None, probe='none', holder=None):
     return obs, info
 
 
-def model_fetch_term(case, evs):
+def model_fetch_term(case, evs, wevs=None):
     cache = 'fun _ => None'
     if case.get('cache') is not None:
         cache = 'fun c => if c =? %d then Some %s else None' % (case['crc'], q_toc(case['cache']))
     return 'enc_run (fetch %s (%s) %s %s %s)' % (q_cls(case['cls']), cache, coqrun.z(case['ver']),
-                                                q_dev(case['raw'], case['crc'], case['extra']), q_evs(evs))
+                                                q_dev(case['raw'], case['crc'], case['extra']),
+                                                q_evs(evs) if wevs is None else '(wire [] %s)' % q_wevs(wevs))
 
 
 # ------------------------------------------------------------------ generators
@@ -398,6 +399,80 @@ def gen_items(rng, cls, n, v2, distinct=True, legal=True):
     return items
 
 
+def stale_packets(rng, cls, v2_other, n_other=None):
+    """well-formed TOC replies of ANOTHER table (an earlier session): its INFO reply and its element replies"""
+    n = rng.choice([1, 2, 3, 5]) if n_other is None else n_other
+    items = gen_items(rng, cls, n, v2_other)
+    dev = fk.PyDev(raw_items(cls, items), rng.getrandbits(32), rng.choice([b'', b'\x10\x10']))
+    info = dev.reply(v2_other, bytes([3 if v2_other else 1]))
+    its = [dev.reply(v2_other, bytes([2, j & 255, j >> 8]) if v2_other else bytes([0, j])) for j in range(n)]
+    return info, its
+
+
+def py_wire(wevs):
+    """twin of Stale.v `wire`: link events -> reply deliveries"""
+    bag, out = [], []
+    for e in wevs:
+        if e[0] == 'Q':
+            bag.append(e[1])
+        elif e[0] == 'P':
+            if e[1] < len(bag):
+                out.append(('D', bag.pop(e[1])))
+        elif e[0] == 'X':
+            if e[1] < len(bag):
+                bag.pop(e[1])
+        else:
+            out.append(('R', e[1], bytes(e[2])))
+    return out
+
+
+def q_wevs(wevs):
+    return '[' + '; '.join({'Q': 'WReach %d', 'P': 'WDeliver %d', 'X': 'WDrop %d'}[e[0]] % e[1] if e[0] != 'R'
+                           else 'WRaw %d %s' % (e[1], q_str(e[2])) for e in wevs) + ']'
+
+
+def wire_adversary(rng, n_items):
+    """link-level adversary: every request sent reaches the device one or more times (resends), answers wait in
+    flight and are delivered in any order, late, or lost.  Returns (choose, wevs)."""
+    wevs, bag, pending = [], [], []
+    reached = [0]
+    budget = [4 * n_items + 16]
+
+    def choose(n_sent, f):
+        while True:
+            if budget[0] <= 0:
+                return None
+            budget[0] -= 1
+            # requests not yet seen by the device reach it (possibly twice)
+            if reached[0] < n_sent and rng.random() < 0.7:
+                k = reached[0]
+                reached[0] += 1
+                for _ in range(rng.choice([1, 1, 2, 3])):
+                    wevs.append(('Q', k))
+                    bag.append(k)
+                continue
+            r = rng.random()
+            if r < 0.1 and n_sent:
+                k = rng.randrange(n_sent)                      # a late resend of an old request
+                wevs.append(('Q', k))
+                bag.append(k)
+                continue
+            if r < 0.15 and bag:
+                j = rng.randrange(len(bag))
+                wevs.append(('X', j))
+                bag.pop(j)
+                continue
+            if bag:
+                j = 0 if rng.random() < 0.6 else rng.randrange(len(bag))
+                wevs.append(('P', j))
+                return ('D', bag.pop(j))
+            if reached[0] >= n_sent:
+                k = n_sent - 1                                   # everything answered: resend the latest request
+                wevs.append(('Q', k))
+                bag.append(k)
+    return choose, wevs
+
+
 def adversary(rng, n_items, mode):
     """Returns choose(n_sent, fetcher) -> event or None.  Modes: honest, dup (duplicates and stale replies),
     noisy (also other channels, out-of-range), garbage (also malformed packets on the TOC channel), cut
@@ -405,12 +480,21 @@ def adversary(rng, n_items, mode):
     budget = [3 * n_items + 12 if mode != 'honest' else n_items + 3]
     cut = rng.randint(0, n_items + 1) if mode == 'cut' else None
     steps = [0]
+    stale = [None]
 
     def choose(n_sent, f):
         steps[0] += 1
         if budget[0] <= 0:
             return None
         budget[0] -= 1
+        if mode == 'stale' and rng.random() < 0.3 and f is not None:
+            # a reply left over from an earlier session (any well-formed reply of another table, either generation),
+            # including the ones that are indistinguishable on the wire: model and code must agree on all of them
+            if stale[0] is None:
+                cls = 'log' if f.port == LOG_PORT else 'param'
+                stale[0] = stale_packets(rng, cls, bool(f._useV2) if rng.random() < 0.8 else not f._useV2)
+            info, its = stale[0]
+            return ('R', 0, info if rng.random() < 0.4 else rng.choice(its))
         if cut is not None and steps[0] > cut:
             return None
         if mode in ('honest', 'cut'):
@@ -420,7 +504,7 @@ def adversary(rng, n_items, mode):
             return ('D', n_sent - 1)
         if r < 0.85:
             return ('D', rng.randrange(0, n_sent))
-        if mode == 'dup':
+        if mode in ('dup', 'stale'):
             return ('D', 0)
         if r < 0.90:
             return ('D', n_sent + rng.randint(0, 2))
@@ -454,7 +538,7 @@ def gen_fetch_cases(ctx):
         cls = rng.choice(['log', 'param'])
         ver = rng.choice([-1, 0, 3, 4, 5, 7, 10])
         n = rng.choice([0, 1, 1, 2, 3, 4, 5, 8, 13, 20])
-        cases.append((cls, n, ver, rng.choice(['honest', 'dup', 'dup', 'noisy', 'noisy', 'garbage', 'garbage', 'cut'])))
+        cases.append((cls, n, ver, rng.choice(['honest', 'dup', 'dup', 'noisy', 'garbage', 'garbage', 'cut', 'stale', 'stale', 'stale', 'wire', 'wire'])))
     out = []
     for cls, n, ver, mode in cases:
         v2 = ver >= 4
@@ -559,16 +643,22 @@ def tie(ctx):
     fcs = gen_fetch_cases(ctx)
     terms, exp, kept = [], [], []
     for case in fcs:
-        ch = adversary(ctx.rng, len(case['raw']), case['mode'])
+        wevs = None
+        if case['mode'] == 'wire':
+            ch, wevs = wire_adversary(ctx.rng, len(case['raw']))
+        else:
+            ch = adversary(ctx.rng, len(case['raw']), case['mode'])
         case['probe'] = ctx.rng.choice(['all', 'all', 'start', 'none']) if len(case['raw']) <= 300 else 'start'
         obs, info = run_fetch(case, choose=ch, probe=case['probe'])
+        if wevs is not None and py_wire(wevs) != [tuple(e) for e in info['evs']]:
+            dis.append({'what': 'harness: link twin py_wire disagrees with the events delivered', 'wevs': wevs[:40]})
         dist['lookup_probes_during_fetch'] = dist.get('lookup_probes_during_fetch', 0) + info['probes']
         if info['probe_fail'] and sum(1 for d in dis if d['what'].startswith('Toc lookups depend')) < 2:
             dis.append({'what': 'Toc lookups depend on the history, not only on the current table (the model\'s Toc is a value)',
                         'detail': info['probe_fail'], 'cls': case['cls'], 'ver': case['ver'], 'n': len(case['raw']),
                         'cache': case['cache'] is not None, 'probe': case['probe'], 'events': [list(e[:2]) for e in info['evs']][:40]})
         case['evs'] = [list(e[:2]) + ([list(e[2])] if len(e) > 2 else []) for e in info['evs']]
-        terms.append(model_fetch_term(case, info['evs']))
+        terms.append(model_fetch_term(case, info['evs'], wevs))
         exp.append(obs)
         kept.append(case)
         dist['fetch_' + case['mode']] = dist.get('fetch_' + case['mode'], 0) + 1
@@ -699,6 +789,14 @@ def run_ext(case, choose=None):
                 ev = case['evs'][k]
                 k += 1
             ev = tuple(ev)
+            if ev[0] == 'O':
+                # extended-type reply left over from an earlier session, for a parameter id that is NOT in flight
+                reqs = cf.sent(PARAM_PORT, 3)
+                cur = int.from_bytes(bytes(reqs[-1][3][1:3]), 'little') if reqs else -1
+                done = any(t == ('fin',) for t in trace)
+                ids = [i for i in list(case['xdev']) + [65535, 0] if done or i != cur]
+                oid = ids[ev[1] % len(ids)]
+                ev = ('R', 3, bytes([2, oid & 255, oid >> 8, ev[2]]))
             if ev[0] == 'M':
                 # misc-channel packet of ANOTHER command (value-updated notification, reply to a persistent/default
                 # request) carrying the id of the extended-type request in flight: must not be taken as its answer
@@ -777,8 +875,10 @@ def ext_adversary(rng, n_ext, mode):
             return ('D', max(0, n_sent - 1))
         if r < 0.8:
             return ('D', rng.randrange(0, n_sent + 1))
-        if r < 0.87:
+        if r < 0.84:
             return ('R', rng.choice([0, 1, 2]), bytes(rng.randrange(256) for _ in range(rng.randint(0, 6))))
+        if r < 0.89:
+            return ('O', rng.randrange(8), rng.choice([0, 1, 1, 2]))
         if r < 0.95 or mode == 'dup':
             # other misc command for the id in flight; tail shaped like a value / status byte (often exactly 1 = "persistent")
             return ('M', rng.choice([1, 1, 1, 0, 3, 4, 5, 6, 255]), rng.choice([b'\x01', b'\x01', b'', b'\x00', bytes(rng.randrange(256) for _ in range(rng.randint(1, 5)))]))
@@ -1089,6 +1189,211 @@ def gen_log_oracle_cases(ctx, deep):
     return out
 
 
+# ------------------------------------------------------------------ two sessions on ONE object, two device tables
+
+def gen_session_events(rng, cls, n, ver, other_ver, n_other, ext_ids):
+    """symbolic schedule of the SECOND session: honest progress ('H') with, at every point, duplicates of earlier
+    answers of this session ('DUP', k), replies left over from the first session ('SI' its INFO reply, ('SE', j) its
+    element replies) — excluding exactly the two kinds that are indistinguishable on the wire —, copies of the reset
+    reply ('S', log only); then the extended-type phase (param)."""
+    same_gen = (ver >= 4) == (other_ver >= 4)
+    evs = []
+    if cls == 'log':
+        evs.append(('S',))
+    for h in range(n + 2):                      # h honest steps done: 0 -> INFO pending, 1..n -> item h-1 pending
+        for _ in range(rng.choice([0, 1, 1, 2, 3])):
+            r = rng.random()
+            if r < 0.3 and (h >= 1 or not same_gen):
+                evs.append(('SI',))
+            elif r < 0.65 and n_other:
+                j = rng.randrange(n_other)
+                if same_gen and 1 <= h <= n and j == h - 1:
+                    j = (j + 1) % n_other
+                    if j == h - 1:
+                        continue
+                evs.append(('SE', j))
+            elif r < 0.85 and h >= 1:
+                evs.append(('DUP', rng.randrange(h)))
+            elif cls == 'log':
+                evs.append(('S',))
+        if h <= n:
+            evs.append(('H',))
+    k = 0
+    for _ in ext_ids:
+        for _ in range(rng.choice([0, 1, 2])):
+            r = rng.random()
+            if r < 0.4:
+                evs.append(('XO', rng.randrange(8), rng.choice([0, 1, 1])))
+            elif r < 0.7 and k:
+                evs.append(('XDUP', rng.randrange(k)))
+            elif r < 0.85:
+                evs.append(('M', rng.choice([1, 4, 6]), [1]))
+            else:
+                evs.append(('SI',))
+        evs.append(('XH',))
+        k += 1
+    for _ in range(rng.choice([0, 1, 2])):
+        evs.append(rng.choice([('SI',), ('SE', 0), ('XO', 1, 1)] if n_other else [('SI',)]))
+    return [list(e) for e in evs]
+
+
+def oracle_sessions_case(case):
+    """One Log / Param object, one cf, one cache directory; session 1 against device A (complete, or abandoned
+    after `cut1` honest steps and a disconnect), session 2 against device B with everything of session 1 still in
+    flight.  Property text on session 2: when it reports finished the table is exactly B's (persistence included),
+    the cache file under B's CRC holds it, finished once, and nothing of session 1 reports finished again."""
+    import shutil
+    import tempfile
+    import threading
+    from cflib.crazyflie.toccache import TocCache
+    cls = case['cls']
+    port = LOG_PORT if cls == 'log' else PARAM_PORT
+    A = [ditem_unjson(d) for d in case['itemsA']]
+    B = [ditem_unjson(d) for d in case['itemsB']]
+    root = tempfile.mkdtemp(prefix='c03s_', dir=os.path.join(coqrun.VERIF, '.build'))
+
+    def fail(klass, detail):
+        return {'class': klass, 'case': case, 'detail': detail, 'observed': detail,
+                'expected': 'session 2 finished once with exactly the table of device B'}
+    with _Patched() as (pm, mon):
+        import cflib.crazyflie.log as lg
+        trace = []
+        cf = fk.FakeCF(case['ver1'], trace)
+        cache = TocCache(rw_cache=root)
+        before = set(threading.enumerate())
+        workers = []
+        try:
+            if cls == 'log':
+                obj = lg.Log(cf)
+            else:
+                obj = pm.Param.__new__(pm.Param)
+                obj.cf = cf
+                obj.toc = pm.Toc()
+
+            def settle():
+                for t in threading.enumerate():
+                    if t not in before and type(t).__name__ == '_ExtendedTypeFetcher':
+                        if t not in workers:
+                            workers.append(t)
+                for t in workers:
+                    if mon.quiescent(t) == 'timeout':
+                        trace.append(('raised', 'Timeout', 'worker did not settle'))
+
+            def start(sess, ver):
+                cf.platform.ver = ver
+                if cls == 'log':
+                    obj.refresh_toc(lambda: trace.append(('fin', sess)), cache)
+                else:
+                    obj.toc = pm.Toc()                     # Param._connection_requested
+                    obj._useV2 = ver >= 4
+                    obj.refresh_toc(lambda: trace.append(('fin', sess)), cache)
+                settle()
+
+            def run(sess, ver, dev, evs, stale_dev, stale_ver):
+                base = len(cf.sent(port, 0))
+                xbase = len(cf.sent(PARAM_PORT, 3))
+                start(sess, ver)
+                for ev in evs:
+                    ev = tuple(ev)
+                    reqs = cf.sent(port, 0)[base:]
+                    xreqs = cf.sent(PARAM_PORT, 3)[xbase:]
+                    if ev[0] == 'S':
+                        cf.deliver(LOG_PORT, 1, bytes([5, 0, 0]))
+                    elif ev[0] in ('H', 'DUP'):
+                        k = len(reqs) - 1 if ev[0] == 'H' else ev[1]
+                        if 0 <= k < len(reqs):
+                            r = dev.reply(ver >= 4, reqs[k][3])
+                            if r is not None:
+                                cf.deliver(port, 0, r)
+                    elif ev[0] == 'SI':
+                        cf.deliver(port, 0, stale_dev.reply(stale_ver >= 4, bytes([3 if stale_ver >= 4 else 1])))
+                    elif ev[0] == 'SE':
+                        j = ev[1]
+                        r = stale_dev.reply(stale_ver >= 4, bytes([2, j & 255, j >> 8]) if stale_ver >= 4 else bytes([0, j]))
+                        if r is not None:
+                            cf.deliver(port, 0, r)
+                    elif ev[0] in ('XH', 'XDUP'):
+                        k = len(xreqs) - 1 if ev[0] == 'XH' else ev[1]
+                        if 0 <= k < len(xreqs):
+                            r = dev.ext_reply(xreqs[k][3])
+                            if r is not None:
+                                cf.deliver(PARAM_PORT, 3, r)
+                    elif ev[0] == 'XO':
+                        cur = int.from_bytes(bytes(xreqs[-1][3][1:3]), 'little') if xreqs else -1
+                        done = any(t == ('fin', sess) for t in trace)
+                        ids = [i for i in list(dev.ext) + [65535, 0] if done or not xreqs or i != cur]
+                        oid = ids[ev[1] % len(ids)]
+                        cf.deliver(PARAM_PORT, 3, bytes([2, oid & 255, oid >> 8, ev[2]]))
+                    elif ev[0] == 'M':
+                        idb = bytes(xreqs[-1][3][1:3]) if xreqs else b'\0\0'
+                        cf.deliver(PARAM_PORT, 3, bytes([ev[1]]) + idb + bytes(ev[2]))
+                    settle()
+
+            def mkdev(items, crc):
+                d = fk.PyDev(raw_items(cls, items), crc, b'')
+                d.ext = {i: (1 if it['pers'] else 0) for i, it in enumerate(items) if cls == 'param' and it['ext']}
+                return d
+            devA, devB = mkdev(A, case['crcA']), mkdev(B, case['crcB'])
+            run(1, case['ver1'], devA, case['evs1'], devA, case['ver1'])
+            fin1 = sum(1 for t in trace if t == ('fin', 1))
+            cf.disconnected.call('uri')
+            mark = len(trace)
+            run(2, case['ver2'], devB, case['evs2'], devA, case['ver1'])
+            tr2 = trace[mark:]
+            exc = [t for t in tr2 if t[0] == 'raised']
+            if exc:
+                return fail('second_session_raises', 'callback raised %r' % (exc[0][1:],))
+            if any(t == ('fin', 1) for t in tr2):
+                return fail('old_session_reports_finished_in_new_session', 'the completion callback of session 1 fired during session 2')
+            fins = sum(1 for t in tr2 if t == ('fin', 2))
+            if fins != 1:
+                return fail('second_session_not_finished_once', 'session 2 reported finished %d times' % fins)
+            if obj.toc is None:
+                return fail('second_session_table_differs', 'table is None')
+            bad = check_table(cls, B, obj.toc, pers=True if cls == 'param' else None)
+            if bad:
+                return fail('second_session_table_differs', bad)
+            got = TocCache(rw_cache=root).fetch(case['crcB'])
+            from cflib.crazyflie.toc import Toc
+            h = Toc()
+            h.toc = got if isinstance(got, dict) else {}
+            bad = None if (not B and got == {}) else (check_table(cls, B, h) if isinstance(got, dict) else 'cache file of session 2 does not load')
+            if bad:
+                return fail('second_session_cache_file_differs', 'file under the CRC of device B: %s' % bad)
+            want = {'%08X.json' % case['crcB']} | ({'%08X.json' % case['crcA']} if fin1 or case.get('a_stored') else set())
+            have = set(os.listdir(root))
+            if not (have <= want | {'%08X.json' % case['crcA']}) or '%08X.json' % case['crcB'] not in have:
+                return fail('second_session_cache_files_wrong', 'cache directory holds %r' % sorted(have))
+            return None
+        finally:
+            for t in workers:
+                mon.shutdown(t)
+            shutil.rmtree(root, ignore_errors=True)
+
+
+def gen_sessions_cases(ctx, deep):
+    rng = ctx.rng
+    out = []
+    for k in range(ctx.scale(36, 300) * (2 if deep else 1)):
+        cls = 'log' if k % 2 == 0 else 'param'
+        ver1, ver2 = rng.choice([(7, 7), (7, 7), (3, 3), (3, 7), (7, 3)])
+        nA, nB = rng.choice([1, 2, 3, 5]), rng.choice([0, 1, 2, 3, 4])
+        A, B = gen_items(rng, cls, nA, ver1 >= 4), gen_items(rng, cls, nB, ver2 >= 4)
+        extA = [i for i, it in enumerate(A) if cls == 'param' and it['ext']]
+        extB = [i for i, it in enumerate(B) if cls == 'param' and it['ext']]
+        # session 1: complete, or abandoned after cut1 honest steps (possibly inside the extended-type phase)
+        full1 = ([['S']] if cls == 'log' else []) + [['H']] * (nA + 1) + [['XH']] * len(extA)
+        cut = rng.choice([None, None, rng.randint(0, len(full1))])
+        if extA and rng.random() < 0.4:
+            cut = len(full1) - rng.randint(1, len(extA))          # abandoned inside the extended-type phase
+        evs1 = full1 if cut is None else full1[:cut]
+        evs2 = gen_session_events(rng, cls, nB, ver2, ver1, nA, extB)
+        out.append({'kind': 'sessions', 'cls': cls, 'ver1': ver1, 'ver2': ver2, 'itemsA': [ditem_json(i) for i in A],
+                    'itemsB': [ditem_json(i) for i in B], 'crcA': rng.getrandbits(32), 'crcB': rng.getrandbits(32),
+                    'evs1': evs1, 'evs2': evs2, 'a_stored': cut is None or cut > nA + (1 if cls == 'log' else 0)})
+    return out
+
+
 # ------------------------------------------------------------------ lookups
 
 def impl_lookups(toc_lists_, queries):
@@ -1279,7 +1584,7 @@ def oracle_fetch_case(case, holder=None):
 def oracle_ext_case(case):
     """real Param.refresh_toc completion + _ExtendedTypeFetcher; adversarial events then honest completion."""
     items = [ditem_unjson(d) for d in case['items']]
-    evs = [tuple(e[:2]) + ((bytes(e[2]),) if len(e) > 2 else ()) for e in case['evs']]
+    evs = [tuple(e) if e[0] == 'O' else tuple(e[:2]) + ((bytes(e[2]),) if len(e) > 2 else ()) for e in case['evs']]
     it_ = iter(evs)
     n_ext = len(case['xdev'])
     guard = [3 * n_ext + 5]
@@ -1382,7 +1687,7 @@ def _mk_oracle_cases(ctx, deep):
             ev = ch(rng.randint(1, max(1, len(c['xdev']))), None)
             if ev is None or (ev[0] == 'R' and ev[1] == 3):      # malformed extended-type packets: tie only
                 continue
-            evs.append(list(ev[:2]) + ([list(ev[2])] if len(ev) > 2 else []))
+            evs.append(list(ev) if ev[0] == 'O' else list(ev[:2]) + ([list(ev[2])] if len(ev) > 2 else []))
         out.append({'kind': 'ext', 'items': c['items'], 'ids': c['ids'], 'xdev': {str(k): v for k, v in c['xdev'].items()}, 'evs': evs})
     return out
 
@@ -1410,6 +1715,8 @@ def _run_oracle_case(case):
             return oracle_refetch_case(case)
         if case.get('kind') == 'log':
             return oracle_log_case(case)
+        if case.get('kind') == 'sessions':
+            return oracle_sessions_case(case)
         return oracle_fetch_case(case)
     except Exception as e:  # noqa
         import traceback
@@ -1429,7 +1736,7 @@ def corpus_cases():
 def oracle(ctx, deep=False):
     fails = []
     n = 0
-    for case in corpus_cases() + _mk_oracle_cases(ctx, deep) + gen_log_oracle_cases(ctx, deep):
+    for case in corpus_cases() + _mk_oracle_cases(ctx, deep) + gen_log_oracle_cases(ctx, deep) + gen_sessions_cases(ctx, deep):
         n += 1
         f = _run_oracle_case(case)
         if f:
